@@ -240,16 +240,24 @@ Section Rewrite.
              | _ => print_rw k OpAssign x
              end) ++ [TOp op] ++ print_rw k OpAssign y
           else
-          (* (a,b) op c  ->  a,b op c  at statement level *)
-          let '(x', pl) :=
+          (* (a,b) op c  ->  a,b op c  at statement level: the leading items are written as list items, the last item stays
+             the left operand of op *)
+          let unwrap :=
             if Nat.leb prec OpExpr then
               match x with
               | EGroup (EBin opc l r) =>
-                  if is_op opc "CommaToken" && Nat.leb OpAnd (expr_prec T r) && Nat.leb (leftp op) (expr_prec T r) then (EBin opc l r, OpExpr) else (x, leftp op)
-              | _ => (x, leftp op)
+                  if is_op opc "CommaToken" && Nat.leb OpAnd (expr_prec T r) && Nat.leb (leftp op) (expr_prec T r) then Some (opc, l, r) else None
+              | _ => None
               end
-            else (x, leftp op) in
-          print_rw k pl x' ++ [TOp op] ++ print_rw k (rightp op) y
+            else None in
+          match unwrap with
+          | Some (opc, l, r) =>
+              (match l with
+               | EBin opl _ _ => if is_op opl "CommaToken" then print_rw k OpExpr l else print_rw k OpAssign l
+               | _ => print_rw k OpAssign l
+               end) ++ [TOp opc] ++ print_rw k (leftp op) r ++ [TOp op] ++ print_rw k (rightp op) y
+          | None => print_rw k (leftp op) x ++ [TOp op] ++ print_rw k (rightp op) y
+          end
       | EPre op x => TOp op :: print_rw k (plookup (t_unary T) op) x
       | EPost op x => print_rw k (plookup (t_unary T) op) x ++ [TOp op]
       | ECond c x y => print_rw k OpCoalesce c ++ [TQ] ++ print_rw k OpAssign x ++ [TColon] ++ print_rw k OpAssign y
